@@ -49,21 +49,23 @@ def main():
         head = t.split('After')[0]
         first = 'missed' if t.startswith('MISSED') else ('flagged without a failing input' if ('no-failing-input-found' in head or 'check-stopped' in head) else 'caught with a concrete replay')
         stat[(d.get('round', 1), first)] += 1
-        if first != 'caught with a concrete replay':
-            stat[(d.get('round', 1), 'of those, caught with a concrete replay after strengthening' if ('After strengthening' in t or 'After the same' in t) else 'of those, still not caught by the property\'s own quick check')] += 1
+        fr = (d.get('final_regression') or {}).get('verdict', '')
+        stat[(d.get('round', 1), 'final:' + fr)] += 1
     out.append('Summary by round (a seed counts for the check of the property it was written against; several "missed" seeds were caught by the check of a neighbouring property, noted in the table):\n')
-    out.append('| round | seeds | caught at first | flagged without failing input at first | missed at first | caught after strengthening | still open |')
-    out.append('|---|---|---|---|---|---|---|')
+    out.append('| round | seeds | caught at first | flagged without failing input at first | missed at first | final regression: concrete replay | final: no-failing-input-found | final: missed |')
+    out.append('|---|---|---|---|---|---|---|---|')
     for r in sorted({k[0] for k in stat}):
         n = sum(1 for d in metas if d.get('round', 1) == r)
-        out.append('| %d | %d | %d | %d | %d | %d | %d |' % (r, n, stat[(r, 'caught with a concrete replay')], stat[(r, 'flagged without a failing input')], stat[(r, 'missed')],
-                                                          stat[(r, 'of those, caught with a concrete replay after strengthening')], stat[(r, 'of those, still not caught by the property\'s own quick check')]))
+        out.append('| %d | %d | %d | %d | %d | %d | %d | %d |' % (r, n, stat[(r, 'caught with a concrete replay')], stat[(r, 'flagged without a failing input')], stat[(r, 'missed')],
+                                                               stat[(r, 'final:caught with a concrete replay')], stat[(r, 'final:caught, no-failing-input-found')], stat[(r, 'final:MISSED')]))
     out.append('')
-    out.append('| seed | breaks | needs | caught by |')
-    out.append('|---|---|---|---|')
+    out.append('The final regression (`seeded/REGRESSION.txt`) ran `tools/seedtest.sh` for every seeded change sequentially against the final machinery (quick tier).')
+    out.append('')
+    out.append('| seed | breaks | needs | caught by | final regression |')
+    out.append('|---|---|---|---|---|')
     for f in sorted(glob.glob(os.path.join(V, 'seeded', '*', 'meta.json'))):
         d = json.load(open(f))
-        out.append('| %s | %s | %s | %s |' % (os.path.basename(os.path.dirname(f)), esc(d.get('breaks', '')), esc(d.get('needs', '')), esc(d.get('detected_by', ''))))
+        out.append('| %s | %s | %s | %s | %s |' % (os.path.basename(os.path.dirname(f)), esc(d.get('breaks', '')), esc(d.get('needs', '')), esc(d.get('detected_by', '')), esc((d.get('final_regression') or {}).get('verdict', '-'))))
     out.append('')
     text = '\n'.join(out)
     p = os.path.join(V, 'DESIGN.md')
